@@ -85,7 +85,13 @@ struct VertS {
 struct GraphS {
   int ndata = 0;
   std::vector<VertS> verts;
+  // payload type of each data: 0 = uint64_t, 1 = std::string holding the decimal number.  std::string is a type with
+  // clear(): GraphData keeps the instance across reset() and only clears it (reuse), so "empty" then depends on
+  // GraphData::_empty alone.  Data used as a condition are numeric (as<bool>() of a string is false).
+  std::vector<int> dtype;
+  int type_of(int d) const { return d < (int)dtype.size() ? dtype[d] : 0; }
 };
+static const uint64_t STALE = 777777;   // a data that shows a recycled, cleared std::string instead of being empty
 
 struct RunCtx {
   const GraphS* spec = nullptr;
@@ -98,6 +104,7 @@ struct RunCtx {
   uint64_t delay_seed = 0;
 };
 static RunCtx* g = nullptr;
+static const GraphS* g_spec = nullptr;   // the graph being built / run (processors read the payload types in setup)
 
 // Join the helper threads of asynchronous processors.  A helper is created by the thread that runs the processor
 // (main, a pool worker — stopped before this is called —, an injector — joined before —, or another helper) and is
@@ -118,7 +125,41 @@ static void yields(int n) {
   for (int i = 0; i < n; ++i) sched_yield();
 }
 
+static OptVal str_val(const std::string* p) {
+  OptVal o;
+  if (p != nullptr) {
+    o.has = true;
+    o.v = p->empty() ? STALE : strtoull(p->c_str(), nullptr, 10);
+  }
+  return o;
+}
+static OptVal num_val(const uint64_t* p) {
+  OptVal o;
+  if (p != nullptr) {
+    o.has = true;
+    o.v = *p;
+  }
+  return o;
+}
+// value of a ready data as the framework presents it
+static OptVal read_data(GraphData* d, int type) {
+  if (!d->ready() || d->empty()) return OptVal();
+  return type == 1 ? str_val(d->value<std::string>()) : num_val(d->value<uint64_t>());
+}
+
 static void publish(GraphData* d, int id, const OptVal& v, const char* who) {
+  int type = g->spec->type_of(id);
+  if (type == 1) {
+    auto c = d->emit<std::string>();
+    if (!c) {
+      if (g->publishes[id] == 0) vrt_event("ORACLE lost-emit %s could not acquire d%d although nobody published it", who, id);
+      return;
+    }
+    if (++g->publishes[id] > 1) vrt_event("ORACLE dup-publish d%d acquired twice", id);
+    vrt_event("publish %d %s", id, show(v).c_str());
+    if (v.has) *c = std::to_string(v.v);
+    return;
+  }
   auto c = d->emit<uint64_t>();
   if (!c) {
     // somebody published it before (a preset of a produced data): fine; otherwise the emit is lost
@@ -134,7 +175,16 @@ class MixProcessor : public GraphProcessor {
  public:
   int setup() noexcept override {
     spec = *option<const VertS*>();
-    for (size_t i = 0; i < spec->deps.size(); ++i) vertex().anonymous_dependency(i)->declare_essential(spec->deps[i].essential);
+    for (size_t i = 0; i < spec->deps.size(); ++i) {
+      auto* dep = vertex().anonymous_dependency(i);
+      dep->declare_essential(spec->deps[i].essential);
+      if (g_spec->type_of(spec->deps[i].target) == 1) dep->declare_type<std::string>();
+      else dep->declare_type<uint64_t>();
+    }
+    for (size_t k = 0; k < spec->emits.size(); ++k) {
+      if (g_spec->type_of(spec->emits[k]) == 1) vertex().anonymous_emit(k)->declare_type<std::string>();
+      else vertex().anonymous_emit(k)->declare_type<uint64_t>();
+    }
     return 0;
   }
   int on_activate() noexcept override {
@@ -163,13 +213,8 @@ class MixProcessor : public GraphProcessor {
       if (est && !g->data[ds.target]->ready())
         vrt_event("ORACLE early-invoke v%d runs while target d%d of established dependency %zu is not ready", spec->id, ds.target, i);
       if (dep->ready() != est) vrt_event("ORACLE early-invoke v%d dependency %zu ready()=%d but established=%d", spec->id, i, (int)dep->ready(), (int)est);
-      if (dep->ready() && !dep->empty()) {
-        auto* p = dep->value<uint64_t>();
-        if (p != nullptr) {
-          in.has = true;
-          in.v = *p;
-        }
-      }
+      if (dep->ready() && !dep->empty())
+        in = g->spec->type_of(ds.target) == 1 ? str_val(dep->value<std::string>()) : num_val(dep->value<uint64_t>());
       ins.push_back(in);
       txt += " " + (in.has ? show(in) : std::string(dep->ready() ? "e" : "-"));
     }
@@ -244,6 +289,7 @@ struct Built {
 };
 
 static bool build(Built& b) {
+  g_spec = &b.spec;
   for (auto& vs : b.spec.verts) {
     auto& v = b.builder.add_vertex([] { return std::unique_ptr<GraphProcessor>(new MixProcessor); });
     v.option(static_cast<const VertS*>(&vs));
@@ -351,12 +397,19 @@ struct Ref {
 // ------------------------------------------------------------------------------------------------
 static void name_graph(Built& b) {
   vrt_unname_all();
+  vrt_payload_sched(1);
   auto& vs = b.graph->vertexes();
   for (size_t i = 0; i < vs.size(); ++i) {
     vrt_namef(&vs[i]._activated, sizeof(vs[i]._activated), "v%zu.act", i);
     vrt_namef(&vs[i]._waiting_num, sizeof(vs[i]._waiting_num), "v%zu.wn", i);
     auto& deps = vs[i].dependencies();
-    for (size_t k = 0; k < deps.size(); ++k) vrt_namef(&deps[k]._waiting_num, sizeof(deps[k]._waiting_num), "e%zu_%zu.wn", i, k);
+    for (size_t k = 0; k < deps.size(); ++k) {
+      vrt_namef(&deps[k]._waiting_num, sizeof(deps[k]._waiting_num), "e%zu_%zu.wn", i, k);
+      // the plain flags written AFTER the counter RMW: scheduling points (vrt_payload_sched), so that another thread
+      // can run between the RMW and the flag store
+      vrt_payload(&deps[k]._established, sizeof(bool), "dep._established");
+      vrt_payload(&deps[k]._ready, sizeof(bool), "dep._ready");
+    }
   }
   for (int j = 0; j < b.spec.ndata; ++j) {
     if (b.data[j] == nullptr) continue;   // an input no vertex refers to is not part of the graph
@@ -367,6 +420,11 @@ static void name_graph(Built& b) {
 
 static void emit_spec(const GraphS& s) {
   vrt_event("graph ndata %d", s.ndata);
+  {
+    std::string t = "graph types";
+    for (int d = 0; d < s.ndata; ++d) t += s.type_of(d) == 1 ? " s" : " n";
+    vrt_event("%s", t.c_str());
+  }
   for (auto& v : s.verts) {
     std::string t = "graph vertex " + std::to_string(v.id) + " kind " + std::to_string(v.kind) + " emits";
     for (int e : v.emits) t += " " + std::to_string(e);
@@ -412,6 +470,11 @@ static GraphS gen_graph(Rng& rng, bool allow_async, int same_pct) {
     if (allow_async && rng.below(100) < 20) v.kind = ASYNC;
     s.verts.push_back(v);
   }
+  s.dtype.assign(s.ndata, 0);
+  for (int d = 0; d < s.ndata; ++d) s.dtype[d] = rng.below(100) < 60 ? 1 : 0;
+  for (auto& v : s.verts)
+    for (auto& d : v.deps)
+      if (d.cond >= 0) s.dtype[d.cond] = 0;
   return s;
 }
 
@@ -430,7 +493,8 @@ static void run_graph(uint64_t seed, const std::string& mode) {
   }
   const GraphS& s = b.spec;
   int ninputs = s.verts.empty() ? s.ndata : s.verts[0].emits[0];
-  int cycles = 1 + (int)rng.below(3);
+  int cycles = 1 + (int)rng.below(4);   // 1-4 run / reset cycles on the same instance; presets change from cycle to cycle,
+                                          // so a data gets a value in one cycle and is published empty in another
   for (int cyc = 0; cyc < cycles; ++cyc) {
     RunCtx rc;
     rc.spec = &s;
@@ -542,33 +606,22 @@ static void run_graph(uint64_t seed, const std::string& mode) {
       for (int d = 0; d < s.ndata; ++d) {
         GraphData* gd = b.data[d];
         if (gd == nullptr) continue;
-        OptVal v;
         bool rdy = gd->ready();
-        if (rdy && !gd->empty()) {
-          auto* p = gd->value<uint64_t>();
-          if (p) {
-            v.has = true;
-            v.v = *p;
-          }
-        }
+        OptVal v = read_data(gd, s.type_of(d));
         vrt_event("value %d %s", d, rdy ? show(v).c_str() : "unready");
       }
       if (code == 0) {
-        for (int t : targets) {
-          GraphData* gd = b.data[t];
-          OptVal v;
-          if (!gd->ready()) {
-            vrt_event("ORACLE value target d%d not ready after a successful run", t);
-            continue;
-          }
-          if (!gd->empty()) {
-            auto* p = gd->value<uint64_t>();
-            if (p) {
-              v.has = true;
-              v.v = *p;
-            }
-          }
-          if (!(v == ref.val[t])) vrt_event("ORACLE value target d%d = %s, sequential evaluation gives %s", t, show(v).c_str(), show(ref.val[t]).c_str());
+        for (int t : targets)
+          if (!b.data[t]->ready()) vrt_event("ORACLE value target d%d not ready after a successful run", t);
+        // every data the sequential evaluation computed (targets and everything they need) holds that value
+        for (int d = 0; d < s.ndata; ++d) {
+          GraphData* gd = b.data[d];
+          if (gd == nullptr || ref.state[d] != 1 || !gd->ready()) continue;
+          OptVal v = read_data(gd, s.type_of(d));
+          bool is_target = std::find(targets.begin(), targets.end(), d) != targets.end();
+          if (!(v == ref.val[d]))
+            vrt_event("ORACLE value %s d%d = %s, sequential evaluation gives %s", is_target ? "target" : "data", d,
+                      v.has && v.v == STALE ? "<recycled cleared instance>" : show(v).c_str(), show(ref.val[d]).c_str());
         }
         for (auto& v : s.verts)
           if ((rc.invoked[v.id] > 0 || rc.activated[v.id] > 0) && !ref.needed_v.count(v.id))
@@ -645,6 +698,7 @@ static void run_dep(uint64_t seed) {
     py.kind = STASH;
     py.emits = {3};
     b.spec.verts = {pt, pc, v, py};
+    b.spec.dtype = {(int)rng.below(2), 0, (int)rng.below(2), (int)rng.below(2)};
   }
   InplaceGraphExecutor inplace;
   b.exec.inner = &inplace;
@@ -653,7 +707,7 @@ static void run_dep(uint64_t seed) {
     printf("0 ev ORACLE build failed\nEND\n");
     return;
   }
-  int cycles = 1 + (int)rng.below(3);
+  int cycles = 1 + (int)rng.below(4);
   for (int cyc = 0; cyc < cycles; ++cyc) {
     RunCtx rc;
     rc.spec = &b.spec;
@@ -686,6 +740,9 @@ static void run_dep(uint64_t seed) {
     auto& V = b.graph->vertexes()[2];
     auto& dep = V.dependencies()[0];
     vrt_name(&dep._waiting_num, sizeof(dep._waiting_num), "dep.wn");
+    vrt_payload(&dep._established, sizeof(bool), "dep._established");
+    vrt_payload(&dep._ready, sizeof(bool), "dep._ready");
+    vrt_payload_sched(1);
     vrt_name(&V._waiting_num, sizeof(V._waiting_num), "V.wn");
     vrt_name(&b.data[0]->_closure, sizeof(void*), "T.closure");
     vrt_name(&b.data[1]->_closure, sizeof(void*), "C.closure");
@@ -728,15 +785,7 @@ static void run_dep(uint64_t seed) {
       OptVal in;
       if (b_est && how_t != 0 && tv.has) in = tv;
       OptVal want = mix(2, 0, {in});
-      OptVal got;
-      GraphData* x = b.data[2];
-      if (x->ready() && !x->empty()) {
-        auto* p = x->value<uint64_t>();
-        if (p) {
-          got.has = true;
-          got.v = *p;
-        }
-      }
+      OptVal got = read_data(b.data[2], b.spec.type_of(2));
       if (!(got == want)) vrt_event("ORACLE value X = %s, sequential evaluation gives %s", show(got).c_str(), show(want).c_str());
       vrt_event("stats steps %lu switches %lu", vrt_steps(), vrt_switches());
       vrt_end();
